@@ -37,6 +37,8 @@ type verifNet struct {
 	// Hook, if set, runs once inside the next SendMessage (what the application does while a
 	// message is being written to the network)
 	Hook func()
+	// HookMsg, if set, runs once inside the next SendMessage with the message being sent
+	HookMsg func(p peer.ID, m datatransfer.Message)
 }
 
 func (n *verifNet) Protect(id peer.ID, tag string) { n.Protects = append(n.Protects, id) }
@@ -48,6 +50,10 @@ func (n *verifNet) SendMessage(ctx context.Context, p peer.ID, m datatransfer.Me
 	if h := n.Hook; h != nil {
 		n.Hook = nil
 		h()
+	}
+	if h := n.HookMsg; h != nil {
+		n.HookMsg = nil
+		h(p, m)
 	}
 	if ctx.Err() != nil {
 		// a real network abandons a send whose context has ended
@@ -83,6 +89,9 @@ type verifTransport struct {
 	Calls   []verifTCall
 	MayFail bool
 	Handler datatransfer.EventsHandler
+	// OpenHook, if set, runs once inside the next OpenChannel (what the network does while the
+	// transport request is being opened)
+	OpenHook func(chid datatransfer.ChannelID)
 }
 
 func (t *verifTransport) fail(op string) error {
@@ -93,6 +102,10 @@ func (t *verifTransport) fail(op string) error {
 }
 func (t *verifTransport) OpenChannel(ctx context.Context, dataSender peer.ID, chid datatransfer.ChannelID, root ipld.Link, stor datamodel.Node, channel datatransfer.ChannelState, msg datatransfer.Message) error {
 	t.Calls = append(t.Calls, verifTCall{Op: "open", Chid: chid, Peer: dataSender, Msg: msg, Channel: channel})
+	if h := t.OpenHook; h != nil {
+		t.OpenHook = nil
+		h(chid)
+	}
 	return t.fail("open")
 }
 func (t *verifTransport) CloseChannel(ctx context.Context, chid datatransfer.ChannelID) error {
